@@ -3,7 +3,7 @@
    [vals t] is the plain two-dimensional grid of values a table holds; the p_* functions are the
    edits of a plain list-of-lists grid (Proofs/GridP.v). *)
 From Coq Require Import ZArith NArith List Bool.
-From NP Require Import Gen.GenConsts Model.PyBase Model.Grid Proofs.GridP.
+From NP Require Import Gen.GenConsts Model.PyBase Model.Grid Proofs.GridP Proofs.GridPosP.
 Import ListNotations.
 Open Scope Z_scope.
 
@@ -86,10 +86,24 @@ Theorem limits_are_source_constants :
 Proof. split; reflexivity. Qed.
 Print Assumptions limits_are_source_constants.
 
-(* PARTIAL: "every cell reports its own row and column" (the renumbering loops) and "the saved file reopens to
-   the same grid" (Grid.reopen) are carried by the lock-step correspondence and the plain-grid oracle, not yet by a
-   theorem; the full statements are
-     forall ops, positions_ok (run (new_table nr nc) ops)     and     vals (reopen t) = vals t  for merge-free wf t. *)
+(* every cell reports its own row and column as its position, in every reachable state *)
+Theorem positions_reachable : forall nr nc ops, 0 <= nr -> 0 <= nc -> pos_ok (run (new_table nr nc) ops).
+Proof. exact positions_reachable_lemma. Qed.
+Print Assumptions positions_reachable.
+
+Theorem positions_pointwise : forall t i j row x, pos_ok t ->
+  nth_error (data t) i = Some row -> nth_error row j = Some x -> crow x = Z.of_nat i /\ ccol x = Z.of_nat j.
+Proof. exact pos_ok_pointwise. Qed.
+Print Assumptions positions_pointwise.
+
+(* the saved file reopens to the same grid (values by C01's storage round trip; here: the table-level reload
+   rebuilds every cell at its position with its value), cells again reporting their own positions *)
+Theorem save_reopen_grid : forall nr nc ops,
+  let t := run (new_table nr nc) ops in
+  0 <= nr -> 0 <= nc -> 0 < nrows t ->
+  vals (reopen t) = vals t /\ pos_ok (reopen t).
+Proof. exact save_reopen_grid_lemma. Qed.
+Print Assumptions save_reopen_grid.
 
 (* non-vacuity *)
 Example history_example :
